@@ -422,7 +422,7 @@ type TCPHdr struct {
 	Src, Dst uint16
 	Seq, Ack uint32
 	DataOff  int // words; 0 = 5 + options
-	Flags    uint16
+	Flags    uint16 // 12 bits: three reserved bits, NS, CWR ... FIN
 	Window   uint16
 	Csum     uint16
 	Urgent   uint16
@@ -441,7 +441,7 @@ func TCP(h TCPHdr, payload []byte) []byte {
 	if h.DataOff != 0 {
 		do = h.DataOff
 	}
-	b[12] = byte(do<<4) | byte(h.Flags>>8)&1
+	b[12] = byte(do<<4) | byte(h.Flags>>8)&0x0f // NS and the three reserved bits (senders set them to zero, receivers ignore them)
 	b[13] = byte(h.Flags)
 	be.PutUint16(b[14:], h.Window)
 	be.PutUint16(b[16:], h.Csum)
